@@ -142,6 +142,11 @@ class Fn:
     def is_cleanup(self, bb):
         return self.blocks[bb].get("c", False)
 
+    def origin(self, bb):
+        """normalised name of the function the block was written in: this function, or the helper it was inlined from
+        (kq/inline.py)"""
+        return self.blocks[bb].get("of") or self.norm
+
     def succs(self, bb):
         if self._succ is None:
             self._succ = []
